@@ -6,4 +6,8 @@ cd /verif/harness
 # keep the lock file in step with the repo's (pinned versions), cargo adds what the harness needs on top
 if [ ! -f Cargo.lock ] || [ /repo/Cargo.lock -nt Cargo.lock ]; then cp /repo/Cargo.lock Cargo.lock; fi
 export CARGO_NET_OFFLINE=true
-exec cargo +stable build --profile verif --bin vcheck "$@" 2>&1 | tail -n 40
+# the real client binary (with hooks) for the process-level engine
+cargo +stable build --manifest-path /repo/Cargo.toml -p watchtower-plugin --bin watchtower-client --features verif --target-dir /verif/harness/target/bins --locked 2>&1 | tail -n 15
+[ "${PIPESTATUS[0]}" = "0" ] || exit 1
+cargo +stable build --profile verif --bin vcheck "$@" 2>&1 | tail -n 40
+exit "${PIPESTATUS[0]}"
